@@ -22,6 +22,8 @@ GNext ==
     \/ InitiatorSeesClose /\ E("InitiatorSeesClose")
     \/ ResponderSeesClose /\ E("ResponderSeesClose")
     \/ AlterField /\ E("AlterField")
+    \/ AlterNonceBits /\ E("AlterNonceBits")
+    \/ AlterWord /\ E("AlterWord")
     \/ AlterEnvelope /\ E("AlterEnvelope")
     \/ Replay /\ E("Replay")
 
@@ -30,5 +32,5 @@ GSpec == GInit /\ [][GNext]_gvars
 Emit == Over =>
     CSVWrite("%1$s", <<ToJson([wire |-> Wire, ip |-> ip, rp |-> rp, n1 |-> n1, old |-> old,
                                 steps |-> hist, ist |-> ist, rst |-> rst])>>, "behaviours.ndjson")
-GenInvariants == CompleteIff /\ Agreement /\ InitiatorSound /\ ResponderSound /\ WireSound
+GenInvariants == CompleteIff /\ Agreement /\ InitiatorSound /\ ResponderSound /\ WireSound /\ NoTouchedWordAccepted
 =============================================================================
